@@ -166,12 +166,12 @@ def reset_cache():
 FILTER_NO_DEFS = '${%data_category} != 11'      # the definition messages are not wanted in the output; they still define
 
 
-def scan(stream, filter_expr=None):
+def scan(stream, filter_expr=None, ccmax=None):
     from pybufrkit.decoder import Decoder, generate_bufr_message
     out = []
     with contextlib.redirect_stderr(io.StringIO()):
         try:
-            for m in generate_bufr_message(Decoder(), stream, continue_on_error=True, wire_template_data=False,
+            for m in generate_bufr_message(Decoder() if ccmax is None else Decoder(compiled_template_cache_max=ccmax), stream, continue_on_error=True, wire_template_data=False,
                                            filter_expr=filter_expr):
                 td = m.template_data.value
                 out.append((m.serialized_bytes, [([str(x) for x in td.decoded_descriptors_all_subsets[i]],
@@ -190,17 +190,17 @@ def judge(hist, e1def, filtered=False):
         return ('envelope',), None
     reset_cache()
     try:
-        got, exc = scan(stream, FILTER_NO_DEFS if filtered else None)
+        got, exc = scan(stream, FILTER_NO_DEFS if filtered is True else None, 8 if filtered == 'compiled' else None)
     finally:
         reset_cache()
     outcome = (len(hist), tuple(exp[0] if exp != 'def' else 'def' for ev, m, exp in items), filtered)
-    tag = '|filtered' if filtered else ''
+    tag = '|compiled' if filtered == 'compiled' else ('|filtered' if filtered else '')
     if exc is not None:
         return outcome, ('scan-raises:' + type(exc).__name__ + tag, 'stream %r%s: %r' % (list(hist), tag, exc))
     gi = 0
     for k, (ev, m, exp) in enumerate(items):
         hit = gi < len(got) and got[gi][0] == m
-        if filtered and exp == 'def':
+        if filtered is True and exp == 'def':
             if hit:
                 return outcome, ('filtered-out-delivered|%s' % ev, 'stream %r: definition message %d was delivered although the '
                                  'filter %r rejects it' % (list(hist), k, FILTER_NO_DEFS))
@@ -367,6 +367,17 @@ def main(tier, seed):
     rep.add_part('histories', p, bounds={'events': EVENTS, 'max_length': maxlen, 'histories': len(hists),
                                          'definition_deviations': bound,
                                          'abstract_states_default_definitions': len(allstates)})
+    # a cached compiled template needs: definition, data, another definition, data -- every history of that shape is added
+    # to the ones up to the length bound
+    defs_, datas_ = [e for e in EVENTS if e[0] == 'd'], [e for e in EVENTS if e[0] == 'x']
+    shape4 = [h for h in itertools.product(defs_, datas_, defs_, datas_)] if maxlen < 4 else []
+    p = merge_all(run_shards(run_hists, [(s, bound - 1, 'compiled') for s in shards[k:] + shards[:k]] +
+                             [(s, 0, 'compiled') for s in split(shape4, 32)]))
+    rep.add_part('histories-compiled', p, bounds={'events': EVENTS, 'max_length': maxlen, 'histories': len(hists) + len(shape4),
+                                                  'definition_data_definition_data_histories': len(shape4),
+                                                  'definition_deviations': bound - 1, 'compiled_template_cache_max': 8},
+                 rule='the same histories read by one decoder with template compilation: a compiled template of an earlier data '
+                      'message must not outlive a definition message that changes what its descriptors mean')
     p = merge_all(run_shards(run_hists, [(s, bound - 1, True) for s in shards[k:] + shards[:k]]))
     rep.add_part('histories-filtered', p, bounds={'events': EVENTS, 'max_length': maxlen, 'histories': len(hists),
                                                   'definition_deviations': bound - 1, 'filter_expr': FILTER_NO_DEFS},
